@@ -22,8 +22,66 @@ struct Lit {
     kind: &'static str,
 }
 
+/// One character as a `\u{..}` escape in one of the spellings rustc accepts: `\u{` (HEX_DIGIT `_`*){1,6} `}`.
+fn unicode_escape_variant(rng: &mut Rng, c: char) -> String {
+    let hex = format!("{:x}", c as u32);
+    let digits: String = match rng.below(4) {
+        0 => hex.clone(),
+        1 => hex.to_uppercase(),
+        2 => format!("{:0>6}", hex),
+        _ => format!("{:0>w$}", hex, w = (hex.len() + 1).min(6)),
+    };
+    let mut o = String::from("\\u{");
+    let style = rng.below(4);
+    for (i, d) in digits.chars().enumerate() {
+        o.push(d);
+        match style {
+            1 if i + 1 < digits.len() => o.push('_'),
+            2 if i == 0 => o.push_str("__"),
+            3 if i + 1 == digits.len() => o.push('_'),
+            _ => {}
+        }
+    }
+    o.push('}');
+    o
+}
+
 fn rust_spelling(rng: &mut Rng, s: &str, allow_multiline: bool) -> (String, &'static str) {
     let raw_ok = !s.contains("\"#") && !s.contains('\r');
+    // the richer spellings (every form of escape and raw string rustc accepts for a str literal)
+    if rng.chance(1, 3) {
+        match rng.below(5) {
+            0 if !s.contains('"') && !s.contains('\r') && !s.contains('\n') => return (format!("r\"{}\"", s), "raw-no-hash"),
+            1 if !s.contains("\"##") && !s.contains('\r') && !s.contains('\n') => return (format!("r##\"{}\"##", s), "raw-two-hashes"),
+            2 => {
+                let mut o = String::from("\"");
+                for c in s.chars() { o.push_str(&unicode_escape_variant(rng, c)); }
+                o.push('"');
+                return (o, "unicode-escape-variants");
+            }
+            3 => {
+                let mut o = String::from("\"");
+                for c in s.chars() {
+                    if (c as u32) < 0x80 { write!(o, "\\x{:02X}", c as u32).unwrap(); } else { o.push(c); }
+                }
+                o.push('"');
+                return (o, "hex-escapes-upper");
+            }
+            _ => {
+                // every character in a spelling of its own
+                let mut o = String::from("\"");
+                for c in s.chars() {
+                    match rng.below(4) {
+                        0 => o.push_str(&unicode_escape_variant(rng, c)),
+                        1 if (c as u32) < 0x80 => write!(o, "\\x{:02x}", c as u32).unwrap(),
+                        _ => o.push_str(&plain_escape(&c.to_string())),
+                    }
+                }
+                o.push('"');
+                return (o, "mixed-escapes");
+            }
+        }
+    }
     match rng.below(if allow_multiline { 6 } else { 5 }) {
         0 if raw_ok && !s.contains('\n') => (format!("r#\"{}\"#", s), "raw"),
         1 => {
